@@ -1,5 +1,6 @@
 import Driver.Common
 import ScionTime.Model.Sync
+import Driver.MainSyncOps
 open Driver ScionTime.Sync ScionTime.F64
 
 /-!
@@ -119,6 +120,10 @@ def step (_ : Unit) (toks : List String) : Unit × String :=
         | some (s, m) => ((), s!"ok {m.toInt} {fmtI64List s}")
       | none => ((), "bad-op")
     | none => ((), "bad-op")
-  | _ => ((), "bad-op")
+  | _ =>
+    -- main.* : syncConfig / clockDrift / dscp of timeservice.go (harness cmain, part sync)
+    match mainSyncStep toks with
+    | some a => ((), a)
+    | none => ((), "bad-op")
 
 def main : IO Unit := Driver.run () step
